@@ -19,15 +19,46 @@ func sortedU64(a []uint64) []uint64 {
 	return b
 }
 
-func (r *Runner) replayOps(l *Line) lineResult {
+func (r *Runner) replayOps(l *Line) lineResult { return r.opsWith(l, 0) }
+
+// replayLiftOps: the proof operations on a lifted forest (see lift.go)
+func (r *Runner) replayLiftOps(l *Line) lineResult {
+	if l.Step.N >= 1<<liftS {
+		return lineResult{skipped: "too many leaves to lift"}
+	}
+	res := lineResult{insts: 1, nontrivial: true, extra: map[string]int{}}
+	for mi, M := range liftMs {
+		if !r.one && (lineHash(l.raw)+uint64(mi))%2 == 1 {
+			continue
+		}
+		r1 := r.opsWith(l, M)
+		for i := range r1.fails {
+			r1.fails[i].What += fmt.Sprintf(" [lifted onto %d high leaves]", M<<liftS)
+		}
+		res.fails = append(res.fails, r1.fails...)
+		res.calls += r1.calls
+		res.extra["lifted_behaviours"]++
+	}
+	return res
+}
+
+func (r *Runner) opsWith(l *Line, liftM uint64) lineResult {
 	r.internLine(l)
 	w := NewWorld(r.sy, WorldCfg{Seed: r.cfg.Seed})
+	w.liftM = liftM
+	for b := 63; b >= 0 && liftM > 0; b-- {
+		if liftM>>uint(b)&1 == 1 {
+			w.highT = append(w.highT, junkTerm(500+b))
+		}
+	}
 	st := &l.Step
 	exp := &l.Expect
 	w.n = st.N
-	R := treeRows(st.N)
+	R := w.rows(st.N)
+	N := w.big(st.N)
+	allRoots := w.sy.Hs(w.withHigh(st.Roots))
 	in := &Inst{Name: "proofops", Kind: KStump}
-	in.S = utreexo.Stump{Roots: w.sy.Hs(st.Roots), NumLeaves: st.N}
+	in.S = utreexo.Stump{Roots: allRoots, NumLeaves: N}
 	props := []string{"C14"}
 	mk := func(p *JProof) ([]uint64, []Hash) { return w.encTargets(p.T, R), w.sy.Hs(p.P) }
 
@@ -42,7 +73,7 @@ func (r *Runner) replayOps(l *Line) lineResult {
 		hb := g.H("targetHashesB", w.leafHashes(st.Bs))
 		var rh []Hash
 		var rp utreexo.Proof
-		pan := protect(func() { rh, rp = utreexo.AddProof(A, B, ha, hb, st.N) })
+		pan := protect(func() { rh, rp = utreexo.AddProof(A, B, ha, hb, N) })
 		g.end()
 		if pan != "" {
 			w.fail(props, in, "panic", "AddProof panicked: "+pan, nil, nil)
@@ -65,7 +96,7 @@ func (r *Runner) replayOps(l *Line) lineResult {
 		var rh []Hash
 		var rp utreexo.Proof
 		var err error
-		pan := protect(func() { rh, rp, err = utreexo.GetProofSubset(P, hs, wa, st.N) })
+		pan := protect(func() { rh, rp, err = utreexo.GetProofSubset(P, hs, wa, N) })
 		g.end()
 		if pan != "" {
 			w.fail(props, in, "panic", "GetProofSubset panicked: "+pan, nil, nil)
@@ -107,7 +138,7 @@ func (r *Runner) replayOps(l *Line) lineResult {
 		g := w.mon.begin(in, "GetMissingPositions")
 		pt := g.U("proofTargets", ta)
 		var got []uint64
-		pan := protect(func() { got = utreexo.GetMissingPositions(st.N, pt, append([]uint64{}, tb...)) })
+		pan := protect(func() { got = utreexo.GetMissingPositions(N, pt, append([]uint64{}, tb...)) })
 		g.end()
 		if pan != "" {
 			w.fail(props, in, "panic", "GetMissingPositions panicked: "+pan, nil, nil)
@@ -118,7 +149,7 @@ func (r *Runner) replayOps(l *Line) lineResult {
 			}
 		}
 		// partial map forest started from the bare roots holding a proof of A
-		m := utreexo.NewMapPollardFromRoots(w.sy.Hs(st.Roots), st.N, false)
+		m := utreexo.NewMapPollardFromRoots(append([]Hash{}, allRoots...), N, false)
 		min := &Inst{Name: "map.fromroots.63", Kind: KMapPart, M: &m}
 		pan = protect(func() {
 			if len(st.As) > 0 {
